@@ -1,2 +1,3 @@
 """Process-global handle on the path currently being executed (see path.py)."""
 PATH = None
+INTERP = None
